@@ -393,8 +393,12 @@ namespace smt
 
     SMT_EXPORT bool sat_core::propagate() noexcept
     {
-        if (inconsistent) // a root-level conflict has already been found..
+        if (inconsistent)
+        { // a root-level conflict has already been found..
+            while (!prop_q.empty())
+                prop_q.pop();
             return false;
+        }
         lit p;
     main_loop:
         while (!prop_q.empty())
